@@ -771,6 +771,28 @@ pub proof fn lemma_withdraw_rate(w: World, wf: World, l0: AssetLedger, assets: i
     lemma_rate_exit_arith(assets as int, out_of_vault(this, receiver, assets), ap, sp, shares as int);
 }
 
+/// max_withdraw bounds what an owner can take: at most the fair value of the owner's own shares, and never the
+/// virtual asset (ta = the total assets the query saw, non-negative for a SEP-41 token)
+pub proof fn lemma_max_withdraw_bound(w: World, w2: World, owner: Address, m: i128, assets: i128)
+    requires inv(w), max_withdraw_rel(w, w2, owner, m), 0 <= assets <= m, bal(w, owner) != 0 ==> obs(w, w2, 0) >= 0,
+    ensures
+        //@@ C05:lemma.max_withdraw_at_most_fair_value_of_own_shares
+        bal(w, owner) == 0 ==> assets == 0,
+        bal(w, owner) != 0 ==> assets * virt_shares(w) <= bal(w, owner) * (obs(w, w2, 0) + 1) && assets <= obs(w, w2, 0),
+{
+    lemma_inv_bal_nonneg(w, owner);
+    lemma_pow10(cur_offset(w) as nat);
+    if bal(w, owner) != 0 {
+        let b = bal(w, owner);
+        let ap = obs(w, w2, 0) + 1;
+        let sp = virt_shares(w);
+        assert(b as i128 as int == b);
+        lemma_rate_redeem(b, ap, sp, m as int);
+        lemma_redeem_leaves_virtual_asset(b, ap, sp, m as int);
+        assert(assets * sp <= m * sp) by(nonlinear_arith) requires assets <= m, sp > 0;
+    }
+}
+
 // =================================================================================================
 // Part 4 — history: along every trace of vault operations, share-token operations that create no shares,
 // arbitrary other activity on the asset token that does not take assets out of the vault's balance
